@@ -5,7 +5,8 @@ Tier B (bounded run-time contract sweep; deduction not applicable, DESIGN sectio
 Contract on the real ``pp.Biot(kw).discretize(sd, data)`` (parameters bc, fourth_order_tensor,
 scalar_vector_mappings = {key: alpha}):
 
-requires  sd a valid 2-D/3-D grid (Cartesian, structured simplex, node-perturbed / affine image), constant isotropic
+requires  sd a valid 2-D/3-D grid (Cartesian, structured simplex, or a hand-built pp.Grid mixing triangles and quadrilaterals,
+          i.e. cells with different node counts; each unperturbed / node-perturbed / affine image), constant isotropic
           stiffness, scalar coupling coefficient alpha (a float, which porepy expands to alpha*I), *all* boundary faces
           Dirichlet for the mechanics (the statement's hypothesis).
 ensures   with the face-major / cell-major vector ordering [k*nd + i]:
@@ -26,7 +27,8 @@ META = {
     "technique": "run-time contract sweep (bounded stand-in for deduction): postconditions of the real Biot.discretize on enumerated grids x "
                  "Lame parameters x coupling coefficients, all-Dirichlet mechanics; affine displacement basis / constant pressure cover the "
                  "linear-field quantifiers by linearity",
-    "text": "Bounded assurance only on the enumerated family. Deduction not applicable. Not covered: tensor-valued coupling coefficients, "
+    "text": "Bounded assurance only on the enumerated family (Cartesian, simplex and 2-D mixed triangle/quadrilateral grids). Deduction not "
+            "applicable. Not covered: 3-D grids mixing cell types, general polygons with more than 4 nodes, tensor-valued coupling coefficients, "
             "non-Dirichlet mechanical boundaries (outside the statement), the consistency (stabilisation) matrix and "
             "bound_displacement_pressure.",
     "note": "oracle = alpha*tr(G)*cell_volumes and -alpha*p*face_normals from grid geometry arrays (C19); tolerances 1e-9 relative",
@@ -39,6 +41,9 @@ MUTANTS = """
        (sub-cell volume weighting dropped)                                           caught by (1) on 12 grid classes
   M3 biot.py _subcell_gradient_to_cell_scalar: ``cell_vol[cell_node_blocks[0]]`` -> ``cell_vol[cell_node_blocks[1] % num_cells]``
        (node index used where the cell index is meant; invisible on uniform grids)    caught by (1) on the perturbed/affine classes only
+  M4 biot.py _subcell_gradient_to_cell_scalar: ``num_cell_nodes = sd.num_cell_nodes()`` -> grid-wide integer
+       ``cell_node_blocks.shape[1] // sd.num_cells`` (invisible when all cells have the same node count)   caught by (1) on the mixed
+       triangle/quadrilateral classes only (regular, perturbed, affine)
   Not detectable under this property's hypotheses (equivalent mutants, not counted): sign of ``rhs_jumps`` -- for constant alpha and
   constant p the jump [n alpha p] cancels on interior sub-faces and Dirichlet rows carry no stress equation.
 """
@@ -54,9 +59,54 @@ O_GRAD = "Biot.discretize: scalar gradient of a constant pressure equals -alpha*
 O_RUN = "Biot.discretize: terminates without exception on an admissible input"
 
 
+def mixed_grid(pp, n, phys, split):
+    """2-D grid mixing cell types: the nx x ny lattice of rectangles on [0,phys[0]] x [0,phys[1]] in which the lattice cells
+    (i, j) listed in ``split`` are cut along a diagonal into two triangles ("/" diagonal if i + j is even, "\\" otherwise); all
+    other cells stay quadrilaterals.  Built by hand with pp.Grid from face-node / cell-face incidences (faces oriented from the
+    cell that mentions them first), the way any general polygonal grid enters porepy."""
+    import scipy.sparse as sps
+
+    nx, ny = n
+    xs, ys = np.linspace(0.0, phys[0], nx + 1), np.linspace(0.0, phys[1], ny + 1)
+    nodes = np.array([[xs[i], ys[j], 0.0] for j in range(ny + 1) for i in range(nx + 1)]).T
+    split = {tuple(s) for s in split}
+    polys = []
+    for j in range(ny):
+        for i in range(nx):
+            a = j * (nx + 1) + i
+            b, c, d = a + 1, a + nx + 2, a + nx + 1  # counter-clockwise corners
+            if (i, j) not in split:
+                polys.append((a, b, c, d))
+            elif (i + j) % 2 == 0:
+                polys += [(a, b, c), (a, c, d)]
+            else:
+                polys += [(a, b, d), (b, c, d)]
+    faces, fn, rows, cols, vals = {}, [], [], [], []
+    for c, poly in enumerate(polys):
+        for k in range(len(poly)):
+            p, q = poly[k], poly[(k + 1) % len(poly)]
+            e = (min(p, q), max(p, q))
+            if e not in faces:
+                faces[e] = len(faces)
+                fn += [e[0], e[1]]
+                sgn = 1
+            else:
+                sgn = -1
+            rows.append(faces[e])
+            cols.append(c)
+            vals.append(sgn)
+    nf = len(faces)
+    face_nodes = sps.csc_matrix((np.ones(2 * nf, dtype=bool), np.array(fn), np.arange(0, 2 * nf + 1, 2)), shape=(nodes.shape[1], nf))
+    cell_faces = sps.csc_matrix((np.array(vals), (np.array(rows), np.array(cols))), shape=(nf, len(polys)))
+    return pp.Grid(2, nodes, face_nodes, cell_faces, "mixed triangles/quadrilaterals")
+
+
 def build_grid(pp, spec):
-    ctor = {"cart": pp.CartGrid, "tri": pp.StructuredTriangleGrid, "tet": pp.StructuredTetrahedralGrid}[spec["kind"]]
-    g = ctor(np.array(spec["n"]), np.array(spec["phys"], dtype=float))
+    if spec["kind"] == "mixed":
+        g = mixed_grid(pp, spec["n"], spec["phys"], spec["split"])
+    else:
+        ctor = {"cart": pp.CartGrid, "tri": pp.StructuredTriangleGrid, "tet": pp.StructuredTetrahedralGrid}[spec["kind"]]
+        g = ctor(np.array(spec["n"]), np.array(spec["phys"], dtype=float))
     if spec.get("nodes") is not None:
         g.nodes = np.array(spec["nodes"], dtype=float)
     with warnings.catch_warnings():
@@ -98,11 +148,21 @@ def grid_specs(pp, rng, quick):
     if not quick:
         base += [("cart", [3, 3], [3.0, 1.5]), ("cart", [4, 3], [1.0, 1.0]), ("tri", [1, 1], [1.0, 1.0]), ("tri", [3, 3], [1.0, 2.0]),
                  ("cart", [3, 2, 2], [1.0, 1.0, 1.0]), ("cart", [1, 1, 1], [1.0, 1.0, 1.0]), ("tet", [2, 2, 1], [1.0, 1.0, 1.0])]
+    # grids mixing triangles and quadrilaterals (cells with different node counts): lattice + list of split lattice cells
+    mixed = [([3, 3], [3.0, 2.25], [[1, 1]]), ([3, 2], [1.5, 1.0], [[0, 0], [2, 0], [1, 1]])]
+    if not quick:
+        mixed += [([2, 1], [2.0, 1.0], [[0, 0]]), ([4, 3], [4.0, 2.25], [[0, 0], [3, 0], [1, 1], [2, 1], [0, 2]]),
+                  ([2, 2], [1.0, 1.0], [[0, 0], [1, 0], [0, 1]])]
     out = []
-    for kind, n, phys in base:
+    for kind, n, phys, split in [b + (None,) for b in base] + [("mixed", n, phys, split) for n, phys, split in mixed]:
         s = {"kind": kind, "n": n, "phys": phys, "nodes": None, "pert": 0}
+        if split is not None:
+            s["split"] = split
         out.append(s)
-        for rate in ((0.1, 0.2) if quick else (0.05, 0.1, 0.2, 0.25)):
+        rates = (0.1, 0.2) if quick else (0.05, 0.1, 0.2, 0.25)
+        if kind == "mixed" and quick:
+            rates = (0.2,)
+        for rate in rates:
             p = perturbed(pp, rng, s, rate)
             if p is not None:
                 out.append(p)
@@ -186,11 +246,12 @@ def run(rep):
     rng = rep.rng
     with rep.sweep(
         "biot coupling consistency",
-        rule="grids {Cartesian, structured triangle/tetrahedral} x {unperturbed, seeded perturbation of all nodes at several rates, affine "
+        rule="grids {Cartesian, structured triangle/tetrahedral, 2-D lattice with some cells split into triangles (mixed cell types, built "
+             "with pp.Grid)} x {unperturbed, seeded perturbation of all nodes at several rates, affine "
              "image} x Lame {(1,1),(0.7,10)} x alpha {1,0.7,2.5}, all-Dirichlet mechanics; per case the complete affine displacement basis "
              "(nd translations + nd*nd unit gradients = all linear displacement fields by linearity) and a constant pressure; distinct by "
              "(grid, Lame, alpha); non-trivial = not (unperturbed Cartesian with alpha = 1)",
-        bound="2-D <= 4x3 cells, 3-D <= 3x2x2 hexahedra / 24 tetrahedra; perturbation <= 0.25 h",
+        bound="2-D <= 4x3 lattice cells (mixed grids: <= 5 of them split into two triangles), 3-D <= 3x2x2 hexahedra / 24 tetrahedra; perturbation <= 0.25 h",
         exhaustive=False,
     ) as sw:
         for spec in grid_specs(pp, rng, quick):
@@ -200,7 +261,7 @@ def run(rep):
                 continue
             for mu, lam in LAME:
                 for alpha in ALPHAS:
-                    key = (spec["kind"], tuple(spec["n"]), str(spec["pert"]), hash(str(spec["nodes"])), mu, lam, alpha)
+                    key = (spec["kind"], tuple(spec["n"]), str(spec.get("split")), str(spec["pert"]), hash(str(spec["nodes"])), mu, lam, alpha)
                     trivial = spec["kind"] == "cart" and spec["pert"] == 0 and alpha == 1.0
                     sw.case(key, nontrivial=not trivial,
                             sample={"grid": {k: v for k, v in spec.items() if k != "nodes"}, "lame": [mu, lam], "alpha": alpha})
